@@ -267,10 +267,17 @@ def c16_4(ctx):
     ctx.check(v == bytes.fromhex("00000000000000000000ffff"), "ipv4-mapped-prefix", ctx.where(init), "IP4_HEADER is %r" % (v,))
 
 
+def c16_5(ctx):
+    """compact-size counts: the writer picks the shortest form for every value and the reader reads what the writer wrote (shared with C07.3)"""
+    from rules import C07
+    C07.c07_3(ctx)
+
+
 OBLIGATIONS = [
     Ob("C16.1", "every message layout equals the wire layout; every type letter has a codec", c16_1, floor=100, engines="TB,REG", exhaustive=True,
        breaks_if="any of the 28 layouts (e.g. getblocktxn indices >= 253)"),
     Ob("C16.2", "codec pairs: one wire type per letter, struct argument order, 6-byte and optional-bool codecs", c16_2, floor=14, engines="SYM,TY", breaks_if="cmpctblock short ids; version(relay=False)"),
     Ob("C16.3", "arrays pack as count + splatted tuples and parse as count + sub-layout", c16_3, floor=6, engines="SYM"),
+    Ob("C16.5", "compact-size counts are written in their shortest form and read back symmetrically (shared with C07.3)", c16_5, floor=4, engines="SYM,GI", breaks_if="counts 65535 and 2**32 - 1"),
     Ob("C16.4", "InvItem and PeerAddress stream/parse symmetrically and store fields unchanged", c16_4, floor=7, engines="SYM", breaks_if="inventory types with the witness flag; IPv4 peers"),
 ]
